@@ -8,6 +8,12 @@ Request   x|<twin>|<kernel>|<arg>|…                 exact: answer is the canon
   expected `ok <comma separated rationals>` | `err <PyErr>`
   tol      `abs:<rat>`  |v - w| ≤ rat     `rel:<rat>:<floor>`  |v - w| ≤ rat · max(|w|, floor)
            `kappa:<rat>`  |v - w| ≤ rat · κ∞(M) · max|M⁻¹|   (inverse; κ∞ and M⁻¹ computed exactly here)
+          h|<twin>|<m0>|<step>|<step>|…              UCS history on ONE object whose matrix starts as m0 (session 3):
+                                                       step = tr~<m> | sh~<d> | mv~<o>          in-place mutators
+                                                            | fk~   a copy was mutated (state must stay) | cp~  continue on copy()
+                                                            | rx~c,s | ry~c,s | rz~c,s  continue on rotate_local_*()
+                                                            | q~<kernel>~<args ;;-separated>~<expected>~<tol>   query on the current state
+                                                       answer `agree` or `DISAGREE step <i> <kernel> <model value>`
 Square roots that the kernels take as parameters are supplied by `sqrtA`, an approximation with relative error
 < 2⁻¹⁰⁰ (driver only; theorems quantify over exact roots).  The NumPy forms of the pure-Python twin
 (`__mul__`, `transpose`, `determinant`, `inverse`, `chain`, `transform_array_inplace`) are answered by the
@@ -20,6 +26,9 @@ import EzdxfVerif.Gen.Matrix44Py
 import EzdxfVerif.Gen.Matrix44Pyx
 import EzdxfVerif.Gen.UcsPy
 import EzdxfVerif.Gen.UcsPyx
+import EzdxfVerif.Gen.ConstructPy
+import EzdxfVerif.Gen.ConstructPyx
+import EzdxfVerif.Model.UcsMachine
 import Drivers.Proto
 open EzdxfVerif.Rat3 EzdxfVerif.Gen
 
@@ -109,6 +118,70 @@ def judge (model : Out) (expected : String) (tol : Rat → Rat) : String :=
     | some ws => if closeLists tol vals ws then "agree" else "DISAGREE " ++ model.show
     | none => "bad-op expected"
 
+/-- tolerance as a function of the expected (implementation) value w -/
+def parseTol (s : String) (a : List String) : Option (Rat → Rat) :=
+  match s.splitOn ":" with
+  | ["abs", r] => do let r ← parseRat r; pure fun _ => r
+  | ["rel", r, fl] => do
+      let r ← parseRat r; let fl ← parseRat fl
+      pure fun w => r * (if absR w < fl then fl else absR w)
+  | ["kappa", r] => do
+      let r ← parseRat r
+      let m ← (a.head?).bind parseM
+      match M44.inv m with
+      | .ok i => let t := r * normInf m * normInf i * maxAbs i.toList; pure fun _ => t
+      | .error _ => pure fun _ => 0
+  | _ => none
+
+/-- a UCS history: mutators update the state, queries are judged against the recorded implementation value -/
+def hist (run : String → List String → Option Out) (mutate : M44 → String → String → Option M44) :
+    M44 → Nat → List String → String
+  | _, _, [] => "agree"
+  | s, i, st :: rest =>
+    match st.splitOn "~" with
+    | [kind, arg] =>
+      match mutate s kind arg with
+      | some s' => hist run mutate s' (i + 1) rest
+      | none => "bad-op step " ++ toString i
+    | ["q", kernel, args, expected, tol] =>
+      let a := showRats s.toList :: (if args.isEmpty then [] else args.splitOn ";;")
+      match parseTol tol a, run kernel a with
+      | some t, some o =>
+        let r := judge o expected t
+        if r = "agree" then hist run mutate s (i + 1) rest
+        else if r.startsWith "DISAGREE" then "DISAGREE step " ++ toString i ++ " " ++ kernel ++ (r.drop 8).toString else r
+      | _, _ => "bad-op step " ++ toString i
+    | _ => "bad-op step " ++ toString i
+
+/-- a Matrix44 history on one object: `im~<o>` `is~` `tp~` in-place operations, `iv~ok|err` inverse with the outcome the
+    implementation had (raising must agree, the state then stays), queries as in `hist` -/
+def mhist (run : String → List String → Option Out) (stepf : M44 → EzdxfVerif.M44Machine.Op → M44) :
+    M44 → Nat → List String → String
+  | _, _, [] => "agree"
+  | s, i, st :: rest =>
+    match st.splitOn "~" with
+    | ["im", o] =>
+      match parseM o with
+      | some o => mhist run stepf (stepf s (.imul o)) (i + 1) rest
+      | none => "bad-op step " ++ toString i
+    | ["is", _] => mhist run stepf (stepf s .imulSelf) (i + 1) rest
+    | ["fk", _] => mhist run stepf s (i + 1) rest   -- a copy was taken and mutated: the original must not notice
+    | ["tp", _] => mhist run stepf (stepf s .transpose) (i + 1) rest
+    | ["iv", flag] =>
+      let s' := stepf s .inverse
+      let raised : Bool := match M44.inv s with | .ok _ => false | .error _ => true
+      if (flag == "err") == raised then mhist run stepf s' (i + 1) rest
+      else "DISAGREE step " ++ toString i ++ " inverse model-raises=" ++ toString raised
+    | ["q", kernel, args, expected, tol] =>
+      let a := showRats s.toList :: (if args.isEmpty then [] else args.splitOn ";;")
+      match parseTol tol a, run kernel a with
+      | some t, some o =>
+        let r := judge o expected t
+        if r = "agree" then mhist run stepf s (i + 1) rest
+        else if r.startsWith "DISAGREE" then "DISAGREE step " ++ toString i ++ " " ++ kernel ++ (r.drop 8).toString else r
+      | _, _ => "bad-op step " ++ toString i
+    | _ => "bad-op step " ++ toString i
+
 -- ------------------------------------------------------------------------------------------- NumPy forms of the Python twin
 namespace PyNumpy
 def mul := M44.mul
@@ -121,6 +194,22 @@ def inverse := M44.inv
 def chain := M44.chain
 def array2d := Matrix44Pyx.array2d
 def array3d := Matrix44Pyx.array3d
+-- `UCS.transform`: `self.matrix *= m` is np.matmul in the Python twin; sequences through it are composed here from the
+-- generated Python-linked query kernels
+def ucsTransform := M44.mul
+/-- `basic_transformation(move, scale, 0)`: `m *= Matrix44.translate(...)` is np.matmul in the Python twin -/
+def basicT0 (move scale : V3) : M44 :=
+  if VectorPy.v3isnull move then Matrix44Py.scale scale.x scale.y scale.z
+  else M44.mul (Matrix44Py.scale scale.x scale.y scale.z) (Matrix44Py.translate move.x move.y move.z)
+def ucsSeqTransformToOcsS (sqrt : Rat → Rat) (s : M44) (_q : V3) (m : M44) (p : V3) := UcsPy.ucsToOcsS sqrt (M44.mul s m) p
+def ucsSeqTransformDirToOcsS (sqrt : Rat → Rat) (s : M44) (_q : V3) (m : M44) (p : V3) := UcsPy.ucsDirToOcsS sqrt (M44.mul s m) p
+def ucsSeqTransformToWcs (s : M44) (_q : V3) (m : M44) (p : V3) := UcsPy.ucsToWcs (M44.mul s m) p
+def ucsSeqTransformFromWcs (s : M44) (_q : V3) (m : M44) (p : V3) := UcsPy.ucsFromWcs (M44.mul s m) p
+/-- the general `basic_transformation(move, scale, angle)` of the Python twin: two NumPy products -/
+def basicT (move scale : V3) (nz : Bool) (c s : Rat) : M44 :=
+  let m0 := Matrix44Py.scale scale.x scale.y scale.z
+  let m1 := if nz then M44.mul m0 (Matrix44Py.zRotate c s) else m0
+  if VectorPy.v3isnull move then m1 else M44.mul m1 (Matrix44Py.translate move.x move.y move.z)
 end PyNumpy
 
 def parseRows (s : String) : Option (List (List Rat)) := parseList parseRats s
@@ -223,43 +312,188 @@ def run (kernel : String) (a : List String) : Option Out :=
   | "ucsDirectionFromWcsU", [m, p] => do let m ← parseM m; let p ← parseV3 p; pure (.ok (v3l (UcsK.ucsDirectionFromWcs m p)))
   | "ucsPointsToWcs", [m, l] => do
       let m ← parseM m; let l ← parseList parseV3 l; pure (.ok ((ucsPointsToWcs m l).map v3l).flatten)
+  | "v3ctor0", [_] => pure (.ok (v3l v3ctor0))
+  | "v3ctor2", [x] => do match ← parseRats x with | [a, b] => pure (.ok (v3l (v3ctor2 a b))) | _ => none
+  | "v3ctor3", [x] => do let v ← parseV3 x; pure (.ok (v3l (v3ctor3 v.x v.y v.z)))
+  | "v3ctorT2", [x] => do match ← parseRats x with | [a, b] => pure (.ok (v3l (v3ctorT2 a b))) | _ => none
+  | "v3ctorT3", [x] => do let v ← parseV3 x; pure (.ok (v3l (v3ctorT3 v.x v.y v.z)))
+  | "v3ctorL3", [x] => do let v ← parseV3 x; pure (.ok (v3l (v3ctorL3 v.x v.y v.z)))
+  | "v3ctorV2", [x] => do let p ← parseV2 x; pure (.ok (v3l (v3ctorV2 p)))
+  | "v3ctorV3", [x] => do let v ← parseV3 x; pure (.ok (v3l (v3ctorV3 v)))
+  | "v2ctor0", [_] => pure (.ok (v2l v2ctor0))
+  | "v2ctor2", [x] => do match ← parseRats x with | [a, b] => pure (.ok (v2l (v2ctor2 a b))) | _ => none
+  | "v2ctorT2", [x] => do match ← parseRats x with | [a, b] => pure (.ok (v2l (v2ctorT2 a b))) | _ => none
+  | "v2ctorT3", [x] => do let v ← parseV3 x; pure (.ok (v2l (v2ctorT3 v.x v.y v.z)))
+  | "v2ctorV3", [x] => do let v ← parseV3 x; pure (.ok (v2l (v2ctorV3 v)))
+  | "v2ctorV2", [x] => do let p ← parseV2 x; pure (.ok (v2l (v2ctorV2 p)))
+  | "v3fromAngle", [c, s, k] => do let c ← parseRat c; let s ← parseRat s; let k ← parseRat k; pure (.ok (v3l (v3fromAngle k c s)))
+  | "v2fromAngle", [c, s, k] => do let c ← parseRat c; let s ← parseRat s; let k ← parseRat k; pure (.ok (v2l (v2fromAngle k c s)))
+  | "v3bool", [x] => do let v ← parseV3 x; pure (.ok [] (showB (v3bool v)))
+  | "v2bool", [x] => do let p ← parseV2 x; pure (.ok [] (showB (v2bool p)))
+  | "v2rmul", [p, k] => do let p ← parseV2 p; let k ← parseRat k; pure (.ok (v2l (v2rmul p k)))
+  | "v3hashArg", [x] => do let v ← parseV3 x; let t := v3hashArg v; pure (.ok [t.1, t.2.1, t.2.2])
+  | "v2hashArg", [x] => do let p ← parseV2 x; let t := v2hashArg p; pure (.ok [t.1, t.2])
+  | "v3truediv", [p, k] => do let p ← parseV3 p; let k ← parseRat k; pure (exV3 (v3truediv p k))
+  | "v3rmul", [p, k] => do let p ← parseV3 p; let k ← parseRat k; pure (.ok (v3l (v3rmul p k)))
+  | "v3radd", [p, q] => do let p ← parseV3 p; let q ← parseV3 q; pure (.ok (v3l (v3radd p q)))
+  | "v3reversed", [p] => do let p ← parseV3 p; pure (.ok (v3l (v3reversed p)))
+  | "v3vec2", [p] => do let p ← parseV3 p; pure (.ok (v2l (v3vec2 p)))
+  | "v3xy", [p] => do let p ← parseV3 p; pure (.ok (v3l (v3xy p)))
+  | "v3mag", [p] => do let p ← parseV3 p; pure (.ok [v3magS sqrtA p])
+  | "v3magxy", [p] => do let p ← parseV3 p; pure (.ok [v3magxyS sqrtA p])
+  | "v3normalizeL", [p, l] => do let p ← parseV3 p; let l ← parseRat l; pure (exV3 (v3normalizeLS sqrtA p l))
+  | "v3isclose2", [p, q, rt, at'] => do
+      let p ← parseV3 p; let q ← parseV3 q; let rt ← parseRat rt; let at' ← parseRat at'
+      pure (.ok [] (showB (v3isclose2 p q rt at')))
+  | "v3isparallel", [p, q] => do
+      let p ← parseV3 p; let q ← parseV3 q
+      match v3isparallelS sqrtA p q with
+      | .ok b => pure (.ok [] (showB b))
+      | .error e => pure (.err e)
+  | "v2truediv", [p, k] => do
+      let p ← parseV2 p; let k ← parseRat k
+      match v2truediv p k with
+      | .ok v => pure (.ok (v2l v))
+      | .error e => pure (.err e)
+  | "v2isnull", [p] => do let p ← parseV2 p; pure (.ok [] (showB (v2isnull p)))
+  | "v2normalize", [p] => do
+      let p ← parseV2 p
+      match v2normalizeS sqrtA p with
+      | .ok v => pure (.ok (v2l v))
+      | .error e => pure (.err e)
+  | "v2project", [p, q] => do
+      let p ← parseV2 p; let q ← parseV2 q
+      match v2projectS sqrtA p q with
+      | .ok v => pure (.ok (v2l v))
+      | .error e => pure (.err e)
+  | "v2distance", [p, q] => do let p ← parseV2 p; let q ← parseV2 q; pure (.ok [v2distanceS sqrtA p q])
+  | "normal3p", [a, b, c] => do
+      let a ← parseV3 a; let b ← parseV3 b; let c ← parseV3 c; pure (exV3 (normal3pS sqrtA a b c))
+  | "distPointLine", [p, a, b] => do
+      let p ← parseV3 p; let a ← parseV3 a; let b ← parseV3 b
+      match distPointLineS sqrtA p a b with
+      | .ok d => pure (.ok [d])
+      | .error e => pure (.err e)
+  | "basicT0", [mv, sc] => do let mv ← parseV3 mv; let sc ← parseV3 sc; pure (.ok (basicT0 mv sc).toList)
+  | "get2d", [m] => do
+      let m ← parseM m
+      let (a, b, c, d, e, f, g, h, i) := get2d m
+      pure (.ok [a, b, c, d, e, f, g, h, i])
+  | "getRow", [m] => do
+      let m ← parseM m
+      let ((a0, a1, a2, a3), (b0, b1, b2, b3), (c0, c1, c2, c3), (d0, d1, d2, d3)) := getRow m
+      pure (.ok [a0, a1, a2, a3, b0, b1, b2, b3, c0, c1, c2, c3, d0, d1, d2, d3])
+  | "getCol", [m] => do
+      let m ← parseM m
+      let ((a0, a1, a2, a3), (b0, b1, b2, b3), (c0, c1, c2, c3), (d0, d1, d2, d3)) := getCol m
+      pure (.ok [a0, a1, a2, a3, b0, b1, b2, b3, c0, c1, c2, c3, d0, d1, d2, d3])
+  | "isCartesian", [m] => do
+      let m ← parseM m
+      match isCartesianS sqrtA m with
+      | .ok b => pure (.ok [] (showB b))
+      | .error e => pure (.err e)
+  | "isOrthogonal", [m] => do
+      let m ← parseM m
+      match isOrthogonalS sqrtA m with
+      | .ok b => pure (.ok [] (showB b))
+      | .error e => pure (.err e)
+  | "ucsIsCartesian", [m] => do
+      let m ← parseM m
+      match ucsIsCartesianS sqrtA m with
+      | .ok b => pure (.ok [] (showB b))
+      | .error e => pure (.err e)
+  | "ucsFromXaxisXY", [o, x, p] => do let o ← parseV3 o; let x ← parseV3 x; let p ← parseV3 p; pure (exM (ucsFromXaxisXYS sqrtA o x p))
+  | "ucsFromXaxisXZ", [o, x, p] => do let o ← parseV3 o; let x ← parseV3 x; let p ← parseV3 p; pure (exM (ucsFromXaxisXZS sqrtA o x p))
+  | "ucsFromYaxisXY", [o, x, p] => do let o ← parseV3 o; let x ← parseV3 x; let p ← parseV3 p; pure (exM (ucsFromYaxisXYS sqrtA o x p))
+  | "ucsFromYaxisYZ", [o, x, p] => do let o ← parseV3 o; let x ← parseV3 x; let p ← parseV3 p; pure (exM (ucsFromYaxisYZS sqrtA o x p))
+  | "ucsFromZaxisXZ", [o, x, p] => do let o ← parseV3 o; let x ← parseV3 x; let p ← parseV3 p; pure (exM (ucsFromZaxisXZS sqrtA o x p))
+  | "ucsFromZaxisYZ", [o, x, p] => do let o ← parseV3 o; let x ← parseV3 x; let p ← parseV3 p; pure (exM (ucsFromZaxisYZS sqrtA o x p))
+  | "ucsRotateLocalX", [m, c, s] => do let m ← parseM m; let c ← parseRat c; let s ← parseRat s; pure (exM (ucsRotateLocalXS sqrtA m c s))
+  | "ucsRotateLocalY", [m, c, s] => do let m ← parseM m; let c ← parseRat c; let s ← parseRat s; pure (exM (ucsRotateLocalYS sqrtA m c s))
+  | "ucsRotateLocalZ", [m, c, s] => do let m ← parseM m; let c ← parseRat c; let s ← parseRat s; pure (exM (ucsRotateLocalZS sqrtA m c s))
+  | "ucsRotate", [m, ax, c, s] => do
+      let m ← parseM m; let ax ← parseV3 ax; let c ← parseRat c; let s ← parseRat s; pure (exM (ucsRotateS sqrtA m ax c s))
+  | "basicT", [mv, sc, nz, c, s] => do
+      let mv ← parseV3 mv; let sc ← parseV3 sc; let nz ← parseBool nz; let c ← parseRat c; let s ← parseRat s
+      pure (.ok (basicT mv sc nz c s).toList)
+  | "ucsTransformU", [m, o] => do let m ← parseM m; let o ← parseM o; pure (.ok (ucsTransform m o).toList)
+  | "ucsShift", [m, d] => do let m ← parseM m; let d ← parseV3 d; pure (.ok (ucsShift m d).toList)
+  | "ucsMoveto", [m, o] => do let m ← parseM m; let o ← parseV3 o; pure (.ok (ucsMoveto m o).toList)
+  | "ucsCopy", [m] => do let m ← parseM m; pure (exM (ucsCopyS sqrtA m))
+  | "ucsToOcs", [m, p] => do let m ← parseM m; let p ← parseV3 p; pure (exV3 (ucsToOcsS sqrtA m p))
+  | "ucsDirToOcs", [m, p] => do let m ← parseM m; let p ← parseV3 p; pure (exV3 (ucsDirToOcsS sqrtA m p))
+  | "ucsPointsToOcs", [m, l] => do
+      let m ← parseM m; let l ← parseList parseV3 l
+      match ucsPointsToOcsS sqrtA m l with
+      | .ok vs => pure (.ok (vs.map v3l).flatten)
+      | .error e => pure (.err e)
+  | "ucsPointsFromWcs", [m, l] => do
+      let m ← parseM m; let l ← parseList parseV3 l; pure (.ok ((ucsPointsFromWcs m l).map v3l).flatten)
+  | "ucsAxes", [m] => do let m ← parseM m; pure (.ok (v3l (ucsUx m) ++ v3l (ucsUy m) ++ v3l (ucsUz m) ++ v3l (ucsOrigin m)))
+  | "ucsWcsFrame", [m, p] => do let m ← parseM m; let p ← parseV3 p; pure (.ok (ucsToWcsFrame m p).toList)
+  | "ucsFrames", [m, p] => do
+      let m ← parseM m; let p ← parseV3 p
+      match ucsToOcsFrameS sqrtA m p with
+      | .ok f => pure (.ok ((ucsToWcsFrame m p).toList ++ f.toList))
+      | .error e => pure (.err e)
+  | "ucsSeqShiftToOcs", [m, q, d, p] => do
+      let m ← parseM m; let q ← parseV3 q; let d ← parseV3 d; let p ← parseV3 p; pure (exV3 (ucsSeqShiftToOcsS sqrtA m q d p))
+  | "ucsSeqMovetoToOcs", [m, q, o, p] => do
+      let m ← parseM m; let q ← parseV3 q; let o ← parseV3 o; let p ← parseV3 p; pure (exV3 (ucsSeqMovetoToOcsS sqrtA m q o p))
+  | "ucsSeqShiftToWcs", [m, q, d, p] => do
+      let m ← parseM m; let q ← parseV3 q; let d ← parseV3 d; let p ← parseV3 p; pure (.ok (v3l (ucsSeqShiftToWcs m q d p)))
+  | "ocsSeqRoundtrip", [t, m, p] => do
+      let t ← parseBool t; let m ← parseM m; let p ← parseV3 p; pure (.ok (v3l (ocsSeqRoundtrip t m p)))
+  | "ucsSeqTransformToOcs", [s, q, m, p] => do
+      let s ← parseM s; let q ← parseV3 q; let m ← parseM m; let p ← parseV3 p; pure (exV3 (ucsSeqTransformToOcsS sqrtA s q m p))
+  | "ucsSeqTransformDirToOcs", [s, q, m, p] => do
+      let s ← parseM s; let q ← parseV3 q; let m ← parseM m; let p ← parseV3 p; pure (exV3 (ucsSeqTransformDirToOcsS sqrtA s q m p))
+  | "ucsSeqTransformToWcs", [s, q, m, p] => do
+      let s ← parseM s; let q ← parseV3 q; let m ← parseM m; let p ← parseV3 p; pure (.ok (v3l (ucsSeqTransformToWcs s q m p)))
+  | "ucsSeqTransformFromWcs", [s, q, m, p] => do
+      let s ← parseM s; let q ← parseV3 q; let m ← parseM m; let p ← parseV3 p; pure (.ok (v3l (ucsSeqTransformFromWcs s q m p)))
   | _, _ => none)
 
+set_option hygiene false in
+/-- one mutator call of a UCS history on the state (the generated mutator kernels of this twin) -/
+local macro "c11_mutate" : command => `(
+def mutate (s : M44) (kind arg : String) : Option M44 :=
+  if kind = "tr" then (parseM arg).map (ucsTransform s)
+  else if kind = "sh" then (parseV3 arg).map (ucsShift s)
+  else if kind = "mv" then (parseV3 arg).map (ucsMoveto s)
+  else if kind = "fk" then some s   -- a copy was taken and mutated: the original must not notice
+  else if kind = "cp" then (match ucsCopyS sqrtA s with | .ok m => some m | .error _ => none)   -- continue on the copy
+  else if kind = "rx" || kind = "ry" || kind = "rz" then   -- continue on the NEW object a local rotation returns
+    match parseRats arg with
+    | some [c, sn] =>
+      let r := if kind = "rx" then ucsRotateLocalXS sqrtA s c sn else if kind = "ry" then ucsRotateLocalYS sqrtA s c sn
+               else ucsRotateLocalZS sqrtA s c sn
+      match r with | .ok m => some m | .error _ => none
+    | _ => none
+  else none)
+
 namespace Py
-open VectorPy Matrix44Py PyNumpy
+open VectorPy Matrix44Py PyNumpy ConstructPy
 open UcsPy hiding ucsDirectionFromWcs
 namespace UcsK
 def ucsDirectionFromWcs := UcsPy.ucsDirectionFromWcs
 end UcsK
 c11_kernels
+c11_mutate
 end Py
 
 namespace Pyx
-open VectorPyx Matrix44Pyx
+open VectorPyx Matrix44Pyx ConstructPyx
 open UcsPyx hiding ucsDirectionFromWcs
 namespace UcsK
 def ucsDirectionFromWcs := UcsPyx.ucsDirectionFromWcs
 end UcsK
 c11_kernels
+c11_mutate
 end Pyx
 
 def runTwin (twin kernel : String) (a : List String) : Option Out :=
   if twin = "py" then Py.run kernel a else if twin = "pyx" then Pyx.run kernel a else none
-
-/-- tolerance as a function of the expected (implementation) value w -/
-def parseTol (s : String) (a : List String) : Option (Rat → Rat) :=
-  match s.splitOn ":" with
-  | ["abs", r] => do let r ← parseRat r; pure fun _ => r
-  | ["rel", r, fl] => do
-      let r ← parseRat r; let fl ← parseRat fl
-      pure fun w => r * (if absR w < fl then fl else absR w)
-  | ["kappa", r] => do
-      let r ← parseRat r
-      let m ← (a.head?).bind parseM
-      match M44.inv m with
-      | .ok i => let t := r * normInf m * normInf i * maxAbs i.toList; pure fun _ => t
-      | .error _ => pure fun _ => 0
-  | _ => none
 
 def step (line : String) : String :=
   match line.splitOn "|" with
@@ -274,6 +508,18 @@ def step (line : String) : String :=
     match parseTol rest[rest.length - 1]! args, runTwin twin kernel args with
     | some tol, some o => judge o expected tol
     | _, _ => "bad-op"
+  | "g" :: twin :: m0 :: steps =>
+    match parseM m0 with
+    | some s =>
+      if twin = "py" then mhist Py.run EzdxfVerif.M44Machine.stepPy s 0 steps
+      else if twin = "pyx" then mhist Pyx.run EzdxfVerif.M44Machine.step s 0 steps else "bad-op"
+    | none => "bad-op"
+  | "h" :: twin :: m0 :: steps =>
+    match parseM m0 with
+    | some s =>
+      if twin = "py" then hist Py.run Py.mutate s 0 steps
+      else if twin = "pyx" then hist Pyx.run Pyx.mutate s 0 steps else "bad-op"
+    | none => "bad-op"
   | _ => "bad-op"
 
 end C11
